@@ -96,18 +96,25 @@ def own_parse_check(piece, psrc, sig):
             fail(sig + '.positions_differ_from_own_parse', (psrc, pc._first_diff(d1, d2)))
 
 
+OPTV = [{}, {'trivia': False}, {'trivia': (False, False)}, {'trivia': 'all'}, {'trivia': ('all', 'all')}, {'trivia': ('block', 'line')}, {'trivia': ('none', 'block')},
+        {'pars': False}, {'pars': True}, {'trivia': ('all+1', 'all-1')}]
+
+
 def _mk_slice(cid):
     c = pc.CARRIER[cid]
 
-    def fn(a: int, b: int):
+    def fn(a: int, b: int, o: int):
+        assume(0 <= o < len(OPTV))
+        o = pc.pin(o, 0, len(OPTV) - 1)
+        OPTS = dict(pc.OPTS, **OPTV[o])
         x = pc.Ctx(c)
-        sig = f'{cid}.get_slice'
+        sig = f'{cid}.get_slice' + (f'[{OPTV[o]}]' if o else '')
         s, e = pc.ref_slice(x.n, a, b)
         with pc.untraced():
             old_dumps = c.get_elems(c.locate_ast(ast.parse(c.src)))
         # ---- copy
         try:
-            with FST.options(**pc.OPTS):
+            with FST.options(**OPTS):
                 piece = x.cont.get_slice(a, b, c.field)
         except pc.EXPECTED_RAISES as ex:
             x.check_unchanged(sig + '.raise')
@@ -133,12 +140,12 @@ def _mk_slice(cid):
         z = pc.Ctx(c)
         cut_exc = del_exc = None
         try:
-            with FST.options(**pc.OPTS):
+            with FST.options(**OPTS):
                 cutp = y.cont.get_slice(a, b, c.field, cut=True)
         except pc.EXPECTED_RAISES as ex:
             cut_exc = ex
         try:
-            with FST.options(**pc.OPTS):
+            with FST.options(**OPTS):
                 z.cont.put_slice(None, a, b, c.field)
         except pc.EXPECTED_RAISES as ex:
             del_exc = ex
@@ -158,6 +165,12 @@ def _mk_slice(cid):
             sepw = {c.sep.strip(), 'elif', 'else', 'if'} if c.sep.strip().isalpha() else {'elif', 'else'}
             if c.id in ('compare3', 'boolop3'):
                 sepw |= {'is', 'not', 'in', 'and', 'or'}      # operators between operands are separators here
+            if c.field == 'orelse':
+                sepw |= {'if'}                                # `elif y:` leaves as `if y:` (the keywords the move itself requires)
+            else_hdr = []
+            if c.field == 'orelse' and s == 0 and e == x.n and e > s:
+                # the whole else block goes: its `else:` header line goes with the keyword, and with it a comment written on that line
+                else_hdr = [(k_, v_) for l_ in c.src.split('\n') if l_.lstrip().startswith('else') for k_, v_, _ in _toks(l_ + '\n') if k_ == 'COMMENT']
 
             def ms(src_):
                 return sorted((k, v) for k, v, _ in _toks(src_ if src_.endswith('\n') else src_ + '\n') if v not in sepw)
@@ -166,7 +179,7 @@ def _mk_slice(cid):
             except Exception as ex:   # noqa: BLE001
                 orig = None
             if orig is not None:
-                check(sorted(r_ + p_) == orig, sig + '.tokens_not_conserved_between_remainder_and_piece', (rem, csrc, [t for t in orig if t not in r_ + p_][:6], [t for t in r_ + p_ if t not in orig][:6]))
+                check(sorted(r_ + p_) == orig or sorted(r_ + p_ + else_hdr) == orig, sig + '.tokens_not_conserved_between_remainder_and_piece', (rem, csrc, [t for t in orig if t not in r_ + p_][:6], [t for t in r_ + p_ if t not in orig][:6]))
         cover('ok')
     return fn
 
@@ -260,8 +273,8 @@ CELLS = []
 _Q = {'list4c', 'ifbody3', 'dict3', 'tuple3', 'decos', 'callargs', 'handlers', 'uni_list', 'global5'}
 for _c in pc.CARRIERS:
     CELLS.append(Cell(f'P1.{_c.id}.get_slice', _mk_slice(_c.id), 'P', FNC,
-                      f'carrier {_c.id}; get_slice(a, b) / get_slice(cut=True) / put_slice(None) with (a, b) symbolic over Z; piece re-rendered and parsed by CPython in the same container kind',
-                      tier='quick' if _c.id in _Q else 'thorough', budget=600, per_path=60, out='other programs; trivia/pars/norm option values other than the defaults + norm=True',
+                      f'carrier {_c.id}; get_slice(a, b) / get_slice(cut=True) / put_slice(None) with (a, b) symbolic over Z and the option set symbolic over {OPTV} (each with norm=True); piece re-rendered and parsed by CPython in the same container kind',
+                      tier='quick', budget=900, per_path=60, out='other programs; option values outside the listed sets; norm=False (pfst documents that it may leave invalid empty containers)',
                       reset=pc.reset_globals))
 for _k in COPY_SRCS:
     CELLS.append(Cell(f'P2.copy[{_k}]', _mk_copy(_k), 'P', FNC, f'carrier {_k}: copy() of every node (symbolic walk ordinal, finite choice)', tier='quick', budget=900, per_path=60,
